@@ -112,6 +112,26 @@ pub fn check_reuse(pic: &str, steps: &[(u8, i128)]) -> Result<(), String> {
     Ok(())
 }
 
+/// Concurrent histories: every thread formats its own values (see `stress_value`) twice with one
+/// of three fixed pictures of the value's type; the picture texts are shared by all threads.
+pub fn check_concurrent(sd: u64, threads: usize, iters: u64) -> Result<u64, String> {
+    const PICS: [[&str; 3]; 6] = [
+        ["YYYY-MM-DD", "Day, DD Month YYYY", "DDD D W WW Dy MON YY"],
+        ["HH24:MI:SS.FF", "HH12:MI:SS AM", "FF3 SS MI HH"],
+        ["YYYY-MM-DD HH24:MI:SS.FF", "DY Mon DD HH:MI:SS.FF9 P.M. YYYY", "YYYYMMDDHH24MISSFF2"],
+        ["YYYY-MM-DD HH24:MI:SS", "Month DD, YYYY HH12 A.M.", "DDD/YYY WW"],
+        ["YYYY-MM", "YY MM", "MM.YYYY"],
+        ["DD HH24:MI:SS.FF", "DD HH24", "SS.FF4 MI"],
+    ];
+    stress(sd, threads, iters, |t, sm| {
+        let (ki, raw) = stress_value(sd, t, sm);
+        let pic = PICS[ki][sm.below(3) as usize];
+        let v = Val::new(KINDS[ki], raw);
+        check_format(&v, pic)?;
+        check_format(&v, pic).map(|_| ())
+    })
+}
+
 pub fn eval(case: &Case) -> Verdict {
     if case.kind == "reuse" {
         let steps: Vec<(u8, i128)> = case.i.chunks(2).map(|c| (c[0] as u8, c[1])).collect();
@@ -119,6 +139,15 @@ pub fn eval(case: &Case) -> Verdict {
             Ok(()) => Verdict::Pass,
             Err(m) => Verdict::Fail(m),
         };
+    }
+    if case.kind == "concurrent" {
+        // several repetitions: the interleaving is not pinned by the replay file
+        for rep in 0..8u64 {
+            if let Err(m) = check_concurrent(case.i[0] as u64 ^ rep, case.i[1] as usize, case.i[2] as u64) {
+                return Verdict::Fail(m);
+            }
+        }
+        return Verdict::Pass;
     }
     let r = match case.kind.as_str() {
         "format" => check_format(&Val::new(Kind::from_index(case.i[0] as usize), case.i[1]), &case.s[0]).map(|_| ()),
@@ -449,6 +478,23 @@ pub fn run(ctx: &Ctx) -> (Stats, Report) {
         st.merge(s);
     }
     st.section("formatter_reuse_histories", &mut mark);
+
+    // concurrent histories: 16 threads format their own values with shared picture texts
+    {
+        let iters = if ctx.thorough { 400_000 } else { 20_000 };
+        for rep in 0..4u64 {
+            let sd = seed ^ mix64(0xc04 ^ rep);
+            match check_concurrent(sd, THREADS, iters) {
+                Ok(n) => {
+                    st.evaluations += 2 * n;
+                    st.nontrivial_enum += 2 * n;
+                    st.class_n("concurrent-format", 2 * n);
+                }
+                Err(m) => st.fail(rep, Case::new(P, "concurrent", vec![sd as i128, THREADS as i128, iters as i128], vec![]), m),
+            }
+        }
+    }
+    st.section("concurrent_histories", &mut mark);
 
     let rep = Report {
         rule: "E1 exhaustive: all 3,652,059 dates x every date token in every letter-case variant on Date (and a 1/97 date subset + both range ends x 3 times on Timestamp/OracleDate); all 86,400 seconds x every time/meridian token on Time, Timestamp (4 dates incl. pre-1970) and OracleDate; all 10^6 microseconds x FF, FF1..FF9 on Time, negative IntervalDT and Timestamp; every single-token spelling x boundary+seeded pool values of all six types (applicability matrix). E2: proptest-generated composite pictures of 0..=40 tokens (applicable menus, plus small pictures over the whole menu) x generated values, through Formatter::format and T::format+write!. Oracle: independent reference renderer on the reference tokenization, byte for byte (case-insensitive only where the statement leaves the case open); an inapplicable token must produce an error. Non-trivial = picture with at least one value-bearing token; distinct by (type, picture, value).".into(),
